@@ -129,6 +129,69 @@ def mc_writer(rep, wd, tier):
     return r
 
 
+
+BAD_EXTRA = {"zip64id": [{"id": 1, "dsz": 8}], "aesid": [{"id": 0x9901, "dsz": 7}], "low": [{"id": 10, "dsz": 4}], "mapped": [{"id": 0x5455, "dsz": 5}],
+             "short_body": [{"id": 0xbeef, "dsz": 9, "asz": 2}], "short_header": [{"id": 0xbeef, "dsz": 0, "hl": 3}], "zero_id": [{"id": 0, "dsz": 0}]}
+
+
+def extra_phase_programs(g, tier):
+    """every (local part, central part) x (valid | each kind of invalid record list) x how the extra phase ends
+    (explicitly, by the next entry, by finish, by drop), for compressing and stored methods, followed by a second entry"""
+    scs = []
+    good = [{"id": 0xbeef, "dsz": 6}, {"id": 0xcafe, "dsz": 0}]
+    kinds = [None] + sorted(BAD_EXTRA)
+    k = 0
+    for mode in ("shared", "local", "central", "both"):
+        for lb in (kinds if mode in ("shared", "local", "both") else [None]):
+            for cb in (kinds if mode in ("central", "both") else [None]):
+                if lb and cb:
+                    continue
+                for end in ("explicit", "next", "finish", "drop"):
+                    k += 1
+                    if tier == "quick" and (k + g.r.randint(0, 1)) % 2:
+                        continue
+                    m = [0, 8, 12, 93][k % 4]
+                    ops = [{"op": "New"}, {"op": "StartFileExtra", "name": "x%d" % k, "method": m, "large": k % 5 == 0}]
+                    lrecs = (BAD_EXTRA[lb] if lb else good) if mode != "central" else None
+                    crecs = (BAD_EXTRA[cb] if cb else good[:1]) if mode in ("central", "both") else None
+                    if lrecs is not None:
+                        ops.append({"op": "WriteExtra", "recs": ([good[0]] if k % 3 == 0 else []) + lrecs})
+                    if mode in ("local", "central", "both"):
+                        ops.append({"op": "EndLocalStartCentral"})
+                    if crecs is not None:
+                        ops.append({"op": "WriteExtra", "recs": crecs})
+                    if end == "explicit":
+                        ops.append({"op": "EndExtra"})
+                    ops.append({"op": "Write", "data": {"len": 300, "seed": k, "kind": "text"}})
+                    if end in ("explicit", "next"):
+                        ops += [{"op": "StartFileExtra", "name": "y%d" % k, "method": 8}, {"op": "WriteExtra", "recs": good}, {"op": "EndExtra"},
+                                {"op": "Write", "data": {"len": 200, "seed": k + 1, "kind": "text"}}]
+                    ops.append({"op": "Drop" if end == "drop" else "Finish"})
+                    scs.append({"sc": "xp%04d-%s-%s-%s-%s" % (k, mode, lb or "ok", cb or "ok", end), "ops": ops})
+    return scs
+
+
+def misuse_programs(g):
+    """each documented misuse in each writer state it can occur in, then the program goes on (later calls, finish)"""
+    pre = {"fresh": [], "after_file": [{"op": "StartFile", "name": "f", "method": 8}, {"op": "Write", "data": "abc"}],
+           "after_dir": [{"op": "AddDir", "name": "d", "method": 0}], "after_symlink": [{"op": "AddSymlink", "name": "l", "target": "t", "method": 0}],
+           "after_raw": list(gen_writer.SRC_PRELUDE) + [{"op": "New"}, {"op": "RawCopy", "arch": 0, "idx": 0, "rename": None}],
+           "in_extra": [{"op": "StartFileExtra", "name": "x", "method": 0}], "in_central": [{"op": "StartFileExtra", "name": "x", "method": 8}, {"op": "EndLocalStartCentral"}],
+           "finished": [{"op": "StartFile", "name": "f", "method": 0}, {"op": "Write", "data": "abc"}, {"op": "Finish"}],
+           "poisoned": [{"op": "StartFile", "name": "p", "method": 8, "level": 77}]}
+    calls = {"write": [{"op": "Write", "data": "misplaced"}], "end_extra": [{"op": "EndExtra"}], "end_local": [{"op": "EndLocalStartCentral"}],
+             "bad_method": [{"op": "StartFile", "name": "m", "method": 99}], "bad_level": [{"op": "StartFile", "name": "lv", "method": 12, "level": 0}],
+             "bad_level_zstd": [{"op": "StartFile", "name": "lz", "method": 93, "level": 23}], "flush": [{"op": "Flush"}], "comment": [{"op": "SetComment", "c": "late"}],
+             "raw": [{"op": "RawCopy", "arch": 0, "idx": 1, "rename": "again"}], "dir": [{"op": "AddDir", "name": "dd", "method": 0}]}
+    scs = []
+    for pn, p in pre.items():
+        for cn, c in calls.items():
+            head = p if pn == "after_raw" else list(gen_writer.SRC_PRELUDE) + [{"op": "New"}] + p
+            for tail in ("finish", "more"):
+                ops = head + c + ([{"op": "StartFile", "name": "next", "method": 8}, {"op": "Write", "data": "next data"}] if tail == "more" else []) + [{"op": "Finish"}]
+                scs.append({"sc": "mu-%s-%s-%s" % (pn, cn, tail), "ops": ops})
+    return scs
+
 # ------------------------------------------------------------------ checks
 def c12(tier):
     rep = Report("C12", tier)
@@ -137,7 +200,7 @@ def c12(tier):
     if not os.environ.get("VERIF_DEV_SKIP_MC"):
         mc_writer(rep, wd, tier)
     sd = vlib.seed()
-    n_sim, n_rand, depth = (150, 120, 30) if tier == "quick" else (3000, 2500, 200)
+    n_sim, n_rand, depth = (300, 400, 30) if tier == "quick" else (3000, 2500, 200)
     # spec -> impl: behaviours of the model replayed as call sequences
     beh = sim_behaviours(wd, "MC_WriterSim.tla", "MC_WriterSim.cfg", n_sim, 14, sd)
     scs = [gen_writer.from_model("m%05d" % i, h) for i, h in enumerate(beh)]
@@ -146,6 +209,8 @@ def c12(tier):
     # impl -> spec: random programs, any call order, concrete large parameters
     g = gen_writer.Gen(sd * 7919 + 12, tier)
     scs = [g.any_order("r%05d" % i, g.r.randint(3, depth)) for i in range(n_rand)]
+    scs += extra_phase_programs(g, tier)
+    scs += misuse_programs(g)
     run_writer_programs(rep, wd, scs, "random", neg_control=False)
     return rep.finish("model_checking",
                       "MC_Writer fix-point over all call orders (<= MaxFiles entries); TLC-simulated behaviours of the "
